@@ -10,6 +10,46 @@ CLAIMS = {
         "text": "Static analysis, sound for the named clauses: every program-written prefix is declared; no author text reaches an element/attribute name position except at the recorded known findings; the html/head/title/model/body skeleton and model child order hold on every path of Survey.xml/xml_model; the root always carries the form id; the element writer's write language is balanced. These are necessary conditions for well-formedness of every output, which no finite test sample establishes.",
         "note": NOTE_COMMON,
     },
+    "C02": {
+        "technique": "provenance of nodeset/ref (single path source); class table; who-may-write of cache/parent/name/children; must-call dominance of validation; abstract evaluation of the uniqueness checks",
+        "text": "Static analysis: every bind/control/repeat/setvalue/action path attribute is get_xpath() of the element that builds the instance node; every element class the builder can place builds an instance node named after itself or is skipped and emits no bind; the xpath cache has a closed set of writers and is reset on re-parenting; validate() dominates generation and must-calls the sibling/section uniqueness checks, which reject equal and case-different names on the abstract name domain.",
+        "note": NOTE_COMMON,
+    },
+    "C03": {
+        "technique": "sanitizer-dominance of the reference substituter; check-before-use dominance; regex syntax tree vs group use",
+        "text": "PARTIAL. Decides: every reference-bearing field reaches XML only through insert_xpaths/insert_output_values (reasoned exceptions checked); unknown/ambiguous names raise before any map read; top-level decision of the replacement function (unknown, ambiguous, last-saved, relative, absolute) by abstract evaluation; regex groups vs consumers; last-saved id/URI agreement; current() requested exactly at predicates. NOT decided: that the relative path computed by share_same_repeat_parent/_relative_path reaches the target (value-level tree arithmetic).",
+        "note": NOTE_COMMON,
+    },
+    "C04": {
+        "technique": "dataflow over the row-loop CFG (append-sequence lattice); stack typestate by dominance; table exhaustiveness; folded type table vs independent spec table",
+        "text": "PARTIAL. Decides: on every path of the row loop a row is appended exactly once (helpers in documented position), skip paths are the documented ones; begin/end frames alias the group's children list and pops are dominated by the match check; children/choices are traversed in list order; all 112 types map to a class whose control-building matches its tag; the type table equals an independent XLSForm spec table; parameter wiring and allowed-parameter tuples equal the spec. NOT decided: run-time nesting of arbitrary interleavings beyond the discipline; loop expansion.",
+        "note": NOTE_COMMON,
+    },
+    "C05": {
+        "technique": "folded alias/conversion tables vs spec; abstract evaluation of xml_bindings as a key-preserving map; alias analysis of the type table",
+        "text": "PARTIAL. Decides: column aliases target the prescribed bind attribute; xml_bindings emits exactly one bind on the row's own xpath with exactly the row's keys, values = substituter(original | converted truth value | itext redirect), over representative bind dicts; conversion tables; type-table defaults are copied before merging; parameter->bind wiring. NOT decided: placement of cell values under nested keys by process_row/merge_dicts.",
+        "note": NOTE_COMMON,
+    },
+    "C06": {
+        "technique": "string typestate raw/escaped/markup; who-may-assemble-markup census; flag/text tuple correlation; abstract evaluation of the substituter and the node factory",
+        "text": "Static typestate analysis: markup is assembled from strings only at five confirmed roles; the parse flag and the text are the two halves of one insert_output_values call at every site; insert_output_values escapes before substituting and returns only (markup,True)/(argument,False); the text writer escapes; the escaper table is the XML one and single-pass; no escaped value reaches an escaping sink except the recorded finding; the node factory parses text only under flag True.",
+        "note": NOTE_COMMON,
+    },
+    "C07": {
+        "technique": "emit=>register decision tables by finite-domain abstract evaluation; must-call order; sentinel and id-format agreement; traversal coverage",
+        "text": "PARTIAL. Decides, exhaustively over label x media x hint x guidance (320 combinations for questions, 20 each for groups and repeats) and 48 message combinations: every jr:itext id emitted by the body/bind emitters is registered by the collectors; padding gives every language every id and form and runs before serialisation; one translation per language with the default marked once; choice ids agree across instance, registration and search redirect. NOT decided: text content per language (C08).",
+        "note": NOTE_COMMON,
+    },
+    "C10": {
+        "technique": "complementary guards and placement by abstract evaluation on abstract defaults and small concrete trees; call-site census; tuple-index agreement",
+        "text": "PARTIAL. Decides: literal vs setvalue are complementary for every default class and both consult the classifier with (default,type); exactly two placements partitioned by repeat ancestry (evaluated on a tree with nested groups/repeats), with the right events; trigger bookkeeping tuple/map/event agreement and nesting in the triggering control. NOT decided: the lexer's classification of free text.",
+        "note": NOTE_COMMON,
+    },
+    "C14": {
+        "technique": "effect analysis (who writes module state), memoisation purity, unordered-iteration flow, release-on-all-exits, shared-singleton census",
+        "text": "Static effect analysis over the whole package: no function writes a module-level mutable object; lru_cache'd functions are pure in their keys and their shared results are not mutated; generation-time writes to element state are idempotent; every iteration over a set ends in an order-insensitive consumer, sorted(), or a reasoned exception; temp files are released on all exits; the shared re.Scanner is used under a lock. These are exactly the sources of seed/history/thread dependence a test run under one seed cannot see.",
+        "note": NOTE_COMMON,
+    },
     "C15": {
         "technique": "non-interference (taint) of the formatting parameters in the XML writers, by abstract evaluation over all child shapes",
         "text": "Static non-interference argument: both modes run the same writexml; formatting parameters never influence a branch, never reach mixed-content context, and appear only adjacent to tag boundaries in element-only content; the two serialisers differ in whitespace literals only. Holds for every form because it is a statement about the writer's code on every child shape.",
